@@ -48,6 +48,7 @@ func C16(r *core.Run) {
 	requestSplit(r)
 	httpVerbs(r)
 	pathParamNames(r)
+	refClosure(r)
 }
 
 // recursionGuards (R-TERM/T2): walks over schema references carry a visited set.
